@@ -195,6 +195,21 @@ func (v *FnVC) init(key string) string {
 			// type invariant of the initial heap: every stored value is in the range of its type
 			fmt.Fprintf(&v.body, "(assert (forall ((r! Int)) (! %s :pattern ((select %s r!)))))\n", r, n)
 		}
+		// well-formed initial heap: no reference to an object that does not exist yet
+		if key != "nextref" {
+			if a := v.allocatedAt(Term{"(select " + n + " r!)", t}, "|nextref@0|"); a != "true" {
+				v.ensureNextref()
+				v.init("nextref")
+				fmt.Fprintf(&v.body, "(assert (forall ((r! Int)) (! %s :pattern ((select %s r!)))))\n", a, n)
+			}
+		}
+	}
+	if t, ok := v.w.heapTypes[key]; ok && strings.HasPrefix(key, "E|") {
+		if a := v.allocatedAt(Term{"(select (select " + n + " r!) j!)", t}, "|nextref@0|"); a != "true" {
+			v.ensureNextref()
+			v.init("nextref")
+			fmt.Fprintf(&v.body, "(assert (forall ((r! Int) (j! Int)) (! %s :pattern ((select (select %s r!) j!)))))\n", a, n)
+		}
 	}
 	return n
 }
@@ -439,6 +454,9 @@ func (v *FnVC) rangeOf(s string, t types.Type) string {
 		}
 	case *types.Slice:
 		return fmt.Sprintf("(and (>= (sl_len %s) 0) (<= (sl_len %s) (sl_cap %s)) (>= (sl_off %s) 0) (>= (sl_ref %s) 0) (=> (= (sl_ref %s) 0) (= (sl_cap %s) 0)))", s, s, s, s, s, s, s)
+	case *types.Pointer:
+		// nil, an object (objects are spaced 1024 apart, so inner addresses stay positive), or a package-level address
+		return fmt.Sprintf("(or (= %s 0) (>= %s 1024) (< %s (- 1000)))", s, s, s)
 	}
 	return "true"
 }
@@ -872,7 +890,7 @@ func (v *FnVC) translateAll() {
 		v.assume(v.rangeOf(v.vals[p].S, p.Type()))
 		v.assume(v.allocated(v.vals[p]))
 	}
-	v.assume(fmt.Sprintf("(> %s 0)", v.get("nextref")))
+	v.assume(fmt.Sprintf("(>= %s 1024)", v.get("nextref")))
 	// preconditions
 	v.initEnv = v.newEnv(State{}, nil) // entry state: every heap at its initial version
 	for _, cl := range v.fc.Clauses {
@@ -926,11 +944,18 @@ func (v *FnVC) addModelVar(name string, t Term) {
 }
 
 func (v *FnVC) allocated(t Term) string {
+	return v.allocatedAt(t, v.get("nextref"))
+}
+
+func (v *FnVC) allocatedAt(t Term, next string) string {
+	if t.T == nil {
+		return "true"
+	}
 	switch t.T.Underlying().(type) {
 	case *types.Pointer:
-		return fmt.Sprintf("(< %s %s)", t.S, v.get("nextref"))
+		return fmt.Sprintf("(< %s %s)", t.S, next)
 	case *types.Slice:
-		return fmt.Sprintf("(< (sl_ref %s) %s)", t.S, v.get("nextref"))
+		return fmt.Sprintf("(< (sl_ref %s) %s)", t.S, next)
 	}
 	return "true"
 }
